@@ -265,6 +265,8 @@ def run_shard(spec):
         st.run_world(rng, cstream.C02_CLASSES, nblocks=rng.choice([8, 14, 22]), ncand=50 if quick else 70, bad_key_prob=0.0)
     for _ in range(1 if quick else 10):       # every candidate the first block above the checkpoint horizon
         st.run_world(rng, cstream.C02_CLASSES, nblocks=rng.choice([6, 10]), ncand=30 if quick else 50, bad_key_prob=0.0, horizon_at_head=True)
+    for _ in range(1 if quick else 10):       # well-filled blocks in which ONE transaction breaks a value rule
+        st.run_world(rng, cstream.C02_CROWDED, nblocks=rng.choice([30, 40]), ncand=14 if quick else 28, bad_key_prob=0.0)
     d.run(rng, 250 if quick else 6000)
     if spec["shard"] % 4 == 0:
         node_lane(st, rng, 3 if quick else 40, 12)
@@ -280,7 +282,8 @@ def run_shard(spec):
 def finalize(m, tier):
     c = m["counters"]
     floors = [("attempts", c.get("attempts", 0), 500),
-              ("candidates_first_above_horizon", c.get("candidates_first_above_horizon", 0), 200), ("conservation_checks", c.get("conservation_checks", 0), 200),
+              ("candidates_first_above_horizon", c.get("candidates_first_above_horizon", 0), 200),
+              ("well-filled blocks (12+ transactions)", sum(v for k, v in c.get("by_class", {}).items() if k.startswith("crowded:")), 30), ("conservation_checks", c.get("conservation_checks", 0), 200),
               ("direct by-itself calls", c.get("direct", {}).get("by_itself_calls", 0), 2000),
               ("direct reward calls", c.get("direct", {}).get("reward_calls", 0), 500),
               ("node_lane_deliveries", c.get("node_lane_deliveries", 0), 60)]
